@@ -112,13 +112,12 @@ Proof. exact clog_independent_of_outcomes. Qed.
 Print Assumptions completion_log_independent_of_outcomes.
 
 (* ---- isinstance over the class forest ------------------------------------------ *)
-(* [Ancestor h c a]: a is c or is reached from c by following parents.  For every
-   forest in which each class is numbered after its parent ([forest_ok]; the
-   harness cannot even build another one: a class is created from its parent
-   class object) the executable test [isinst h] used by the cases is exactly
-   that relation. *)
+(* [Ancestor h c a]: a is c or is reached from c by following parents.  The
+   executable test [isinst h] used by the cases (a walk with fuel = number of
+   classes) is exactly that relation, for EVERY parent list (a chain that reaches
+   a reaches it within that many steps: pigeonhole). *)
 Theorem isinstance_is_ancestor :
-  forall h c a, forest_ok h = true -> (isinst h c a = true <-> Ancestor h c a).
+  forall h c a, isinst h c a = true <-> Ancestor h c a.
 Proof. exact isinst_ancestor. Qed.
 Print Assumptions isinstance_is_ancestor.
 
@@ -129,7 +128,6 @@ Print Assumptions isinstance_is_ancestor.
    and returns None iff no failure is an instance of `only`. *)
 Theorem raise_first_over_hierarchy :
   forall h aws only tcall,
-    forest_ok h = true ->
     (forall e, raise_first_exc (isinst h) aws only tcall = Some (tdone tcall aws, Some e) <->
        exists pre a c post, aws = pre ++ a :: post /\ aout a = Raise c e /\ Ancestor h c only /\
          forall a' c' e', In a' pre -> aout a' = Raise c' e' -> ~ Ancestor h c' only) /\
@@ -157,17 +155,22 @@ Print Assumptions raise_first_over_hierarchy.
    monitor rejects nothing that satisfies it. *)
 Theorem monitor_sound :
   forall rm h only tcall aws o,
-    forest_ok h = true ->
     ok (Case rm h only tcall aws o) = true -> observed_ok rm h only aws o.
-Proof. intros rm h only tcall aws o Hok. apply (ok_iff_observed_ok rm h only tcall aws o Hok). Qed.
+Proof. intros rm h only tcall aws o. apply (ok_iff_observed_ok rm h only tcall aws o). Qed.
 Print Assumptions monitor_sound.
 
 Theorem monitor_sound_converse :
   forall rm h only tcall aws o,
-    forest_ok h = true ->
     observed_ok rm h only aws o -> ok (Case rm h only tcall aws o) = true.
-Proof. intros rm h only tcall aws o Hok. apply (ok_iff_observed_ok rm h only tcall aws o Hok). Qed.
+Proof. intros rm h only tcall aws o. apply (ok_iff_observed_ok rm h only tcall aws o). Qed.
 Print Assumptions monitor_sound_converse.
+
+(* the model's own trace satisfies that statement, for all inputs: the property,
+   in the relational vocabulary, about the executable model *)
+Theorem model_satisfies_statement :
+  forall rm h only tcall aws, observed_ok rm h only aws (model_trace rm h only tcall aws).
+Proof. exact model_observed_ok. Qed.
+Print Assumptions model_satisfies_statement.
 
 (* "exactly": the selected list is determined by the input *)
 Theorem selected_unique :
@@ -202,17 +205,14 @@ Example monitor_rejects :
   ok (Case false h6 1 0 aws (mkobs [(1, 2%N); (1, 1%N)] [(1, 1%N, 1); (2, 2%N, 2)] (1, 0, 2%N))) = false.
 Proof. vm_compute. repeat split. Qed.
 
-(* hypotheses of the forest theorems are satisfiable: the forests of the cases are
-   numbered parents-first; class 3 (ESub) is an instance of 1 (Exception) via 2,
-   class 5 (BOnly) is not; a cyclic "forest" is excluded *)
+(* the ancestor relation on the forest of the examples: class 3 (ESub) is an
+   instance of 1 (Exception) via 2, class 5 (BOnly) is not, but of 0 *)
 Example forest_example :
-  forest_ok h6 = true /\ forest_ok [None; Some 0; Some 1; Some 2; Some 1; Some 0; Some 5] = true /\
-  forest_ok [Some 1; Some 0] = false /\
   Ancestor h6 3 1 /\ ~ Ancestor h6 5 1 /\ Ancestor h6 5 0.
 Proof.
-  repeat split; try reflexivity.
+  repeat split.
   - eapply Anc_up; [reflexivity|]. eapply Anc_up; [reflexivity|]. constructor.
-  - intros H. apply (isinstance_is_ancestor h6 5 1 eq_refl) in H. discriminate.
+  - intros H. apply isinstance_is_ancestor in H. discriminate.
   - eapply Anc_up; [reflexivity|]. constructor.
 Qed.
 
@@ -238,7 +238,7 @@ Example observed_ok_example :
   ~ observed_ok false h6 1 aws (mkobs [(2, 1%N); (1, 1%N)] [(2, 1%N, 1)] (1, 0, 1%N)).
 Proof.
   cbv zeta. split; [|split].
-  - apply (monitor_sound false h6 1 0%N); reflexivity.
-  - intros H. apply (monitor_sound_converse false h6 1 0%N) in H; [discriminate|reflexivity].
-  - intros H. apply (monitor_sound_converse false h6 1 0%N) in H; [discriminate|reflexivity].
+  - apply (monitor_sound false h6 1 0%N). reflexivity.
+  - intros H. apply (monitor_sound_converse false h6 1 0%N) in H. discriminate.
+  - intros H. apply (monitor_sound_converse false h6 1 0%N) in H. discriminate.
 Qed.
